@@ -403,6 +403,37 @@ def mk_replay(shape, mask, what):
     return rp
 
 
+def native(tier, seed, bdir, only=None):
+    """native stand-in for the value / order clauses of C13 on the real classes (values from top cells and from
+    vertices, base and periodic; filtration order total, non-decreasing, faces first): exhaustive over a 5-letter value
+    alphabet (ties, +-inf) for inputs of <= 6 cells, sampled from VERIF_SEED otherwise.  Labelled bounded."""
+    import fnmatch
+    import json
+    if only and not fnmatch.fnmatch("native.values_and_order", only):
+        return []
+    os.makedirs(bdir, exist_ok=True)
+    exe = os.path.join(bdir, "cubical_values")
+    inc = ["-I/repo/src/Bitmap_cubical_complex/include", "-I/repo/src/common/include"]
+    rc, o, e, s = sh(["g++", "-std=c++17", "-O2", "-w"] + inc + [os.path.join(VERIF, "native", "cubical_values.cpp"), "-o", exe, "-ltbb"], 600)
+    if rc != 0:
+        return [{"unit": "native.values_and_order", "status": "error", "notes": (o + e)[-1500:], "cases": 0, "failures": []}]
+    rc, o, e, secs = sh([exe, str(seed), "1" if tier == "thorough" else "0"], 3600)
+    rec = {"unit": "native.values_and_order", "route": "B", "kind": "native (exhaustive for small inputs, sampled otherwise)", "status": "ok", "cases": 0,
+           "failures": [], "seconds": round(secs, 2), "bound": "11 base shapes, 10 periodic shape/mask pairs, both input conventions; value alphabet {0,1,2,+inf,-inf} exhaustive for <= 6 input cells, sampled otherwise",
+           "desc": "each cell's value is the min over the top cells containing it / the max over its vertices; the filtration order lists every cell once, never decreases, faces first"}
+    try:
+        js = json.loads(o.strip().split("\n")[-1])
+        rec["cases"] = rec["obligations"] = js["checked"]
+        for m in js["first"]:
+            m["id"] = f"case{len(rec['failures'])}"
+            m["input_class"] = None
+            rec["failures"].append(m)
+    except (ValueError, IndexError):
+        rec["status"] = "error"
+        rec["notes"] = f"native run failed rc={rc}: {(o + e)[-600:]}"
+    return [rec]
+
+
 def selftest():
     try:
         replay_bin()
